@@ -27,6 +27,11 @@
 (* that keeps the read lock while its nodes run.  CbWrites: callbacks that *)
 (* call a writing Broker method (a node registering something from         *)
 (* Process).  LeakOnFail: a failing precondition exit that forgets Unlock. *)
+(* ComposedGateable: what the gated filter sends through the Broker is      *)
+(* itself a Gateable payload that the filter accepts, so the nested Send    *)
+(* comes back into the filter's locked section (today ComposeFrom's result  *)
+(* is refused with an error when it is Gateable, so the nested Send passes  *)
+(* the filter without touching gl).                                         *)
 (***************************************************************************)
 EXTENDS Naturals, Sequences, FiniteSets, TLC
 
@@ -39,7 +44,8 @@ CONSTANTS Procs, Progs,        \* Progs[p] = sequence of ops in {"Send","Write",
           CbWrites,            \* callbacks that re-enter a writing call: subset of {"process"}
           LeakOnFail,          \* BOOLEAN
           LeakTL,              \* BOOLEAN: a Send that finds its context done returns without releasing thresholdLock
-          RecursiveRead        \* BOOLEAN: a getter takes the Broker's read lock twice (a helper that locks, called under the lock)
+          RecursiveRead,       \* BOOLEAN: a getter takes the Broker's read lock twice (a helper that locks, called under the lock)
+          ComposedGateable     \* BOOLEAN: the nested Send of the gated filter needs the filter's mutex again
 
 VARIABLES readers, writer, pendingW, gl, stack, pcnt,
           tlr, tlw           \* graph.thresholdLock of the event type: readers per process, writer
@@ -89,6 +95,8 @@ SendBody(p) ==
            \/ /\ "process" \in CbWrites /\ Depth(p) < 2
               /\ NestOp(p, "inwrite", "Write") /\ UNCHANGED <<readers, gl>>
            \/ /\ ("process" \notin (CbSends \cup CbWrites) \/ Depth(p) >= 2)
+              \* the nested event passes the same filter: a Gateable one needs gl for its own critical section
+              /\ (ComposedGateable /\ GatedLock /\ Depth(p) >= 2) => gl = "none"
               /\ Set(p, "thr") /\ UNCHANGED gl
               /\ (IF HoldProcess = "R" THEN RUnlock(p) ELSE UNCHANGED readers)
      \/ /\ Top(p).pc = "inproc" /\ (IF GatedLock THEN gl' = "none" ELSE UNCHANGED gl)
